@@ -23,6 +23,10 @@ def check(ctx):
     ctx.run(R.rule_thread_sites, "C10.F2", rr)
     ctx.run(E.rule_sentinels, "C10.F2", r)
     ctx.run(E.rule_nothing_blocks_under_lock, "C10.F3", r, ur)
+    # the bundled displays share one lock between the workers' notifications and the update thread: the thread must not call its output
+    # sink (print, file write, user callback) while holding it (evaluated, see c20.rule_update_thread)
+    from .c20 import rule_update_thread, update_thread_of
+    ctx.run(lambda c_: rule_update_thread(c_, "C10.F3", *update_thread_of(ctx.model), sink_outside_lock=True))
     ctx.run(E.rule_queue_internals, "C10.F3", r)
     ctx.run(R.rule_workers_wait_only_for_work, "C10.F4", rr, ur)
     ctx.run(E.rule_stop_discipline, "C10.F5", r)
